@@ -12,23 +12,38 @@ PROP = dict(
          "(canonical and alternative spellings: text lines with any prefix/subset of the 21 fields, colour values with/"
          "without readability bit, one/two-argument brightness, simple three-line and advanced graphics with chunk size "
          "40..170, JSON state lines and message arrays produced by json.Marshal of generated states; non-grammar lines "
-         "interleaved). Exhaustive part (every run): all 65 536 values of each packed HWC#, HWCx#, HWCc# integer "
+         "interleaved; 15% of the graphics groups are two transfers woven into each other - outside Spec.inDomainLines, "
+         "correspondence only). Exhaustive part (every run): all 65 536 values of each packed HWC#, HWCx#, HWCc# integer "
          "through the real decoder, all 256 values of both text colour fields, every prefix length 0..21 of a full text "
-         "line, every non-grammar sample alone and between state lines. EQ = Lean model decIn equals the decoded "
-         "messages (canonical text incl. nil); H1 = effects(decoded messages) = Spec.readInbound(lines) for sequences "
-         "in Spec.inDomainLines (others tagged B:outdom: checked for nil message / panic only)",
-    trusted_base=["regexp: replaced by hand-written byte matchers (Model/DecIn.lean) for the six patterns; equivalence is "
-                  "correspondence-tested incl. near-miss lines ('.' excludes LF, '$' end of text, leftmost-first alternation)",
+         "line, every non-grammar sample alone and between state lines, the witnesses of the *_out_of_domain_behaviour / "
+         "foreign_part_divergence theorems. Records din.rx (6) = pattern text of the library's compiled regexp objects "
+         "(reached through go:linkname) equals the extracted Gen.regex_*_src; records din.match = the six hand-written "
+         "byte matchers against those real regexp objects, bounded-exhaustive: every string of length <= 3 (thorough 4) "
+         "over 19 significant bytes (digits, , = / x : - A Z a space LF CR # @ [ | and a non-ASCII byte) against all six, "
+         "every string of length <= 2 (thorough 3) after each of 200 stems (prefixes of valid lines at every structural "
+         "position of each pattern), every valid line against all six patterns, ALL single edits (delete/replace/insert "
+         "over the alphabet) of 34 valid lines, 300 (thorough 5000) random double edits per line and in the thorough tier "
+         "all double edits of the shortest valid line of each pattern. EQ = Lean model decIn equals the decoded "
+         "messages (canonical text incl. nil) / matcher result equals FindStringSubmatch; H1 = effects(decoded messages) "
+         "= Spec.readInbound(lines) for sequences in Spec.inDomainLines (others tagged B:outdom: checked for nil message "
+         "/ panic only). (Family c01 additionally runs ein.rt = decoder(encoder(msgs)) on every random message list and "
+         "checks C02.roundtrip_in's conclusion on the implementation.)",
+    trusted_base=["regexp: replaced by hand-written byte matchers (Model/DecIn.lean) for the six patterns; the pattern sources are "
+                  "pinned and their keyword alternations proved equal to the matchers' tables (regex_sources_tie, "
+                  "regex_keywords_tie); the rest of each pattern ('.' excludes LF, '$' end of text, classes, optional groups) is "
+                  "compared bounded-exhaustively with the library's real regexp objects (din.match), not proved",
                   "strconv.Atoi incl. the overflow-before-syntax-error behaviour (Base/Bytes.lean scanU), encoding/base64 "
                   "DecodeString incl. partial output on corrupt input (Base/B64.lean quantum model)",
                   "encoding/json: parsed states / message arrays / NetworkConfig enter as harness-supplied parameters"],
-    assumptions=["a JSON line's meaning is what encoding/json parses it to (oracle parameter)"],
+    assumptions=["a JSON line's meaning is what encoding/json parses it to: reference reader and decoder model consult the SAME "
+                 "oracle value (computed by the harness with encoding/json), so for JSON lines only 'the parsed state is passed "
+                 "on unchanged, in place' is checked"],
 )
 
 CLAIM = dict(
     text="Lean theorems: packed_total_mode/ext/color (for EVERY value < 2^32, in particular the whole 16-bit space, and any "
          "id list, the decoded message's effects equal the reference reading — arithmetic, not enumeration); "
-         "colour_readability_bit_irrelevant; brightness_one_two (model and Spec); nongrammar_silent (any line whose "
+         "colour_readability_bit_irrelevant; brightness_one_two_model/_spec; nongrammar_silent (any line whose "
          "keyword/key is not in the grammar yields at most the empty message and no effect, decoder and reader, pinned and "
          "repaired tree); dec_sound: for line sequences of ANY length in the domain Spec.inDomainLines (every line non-grammar or "
          "well-formed, every family incl. 21-field HWCt# text lines and HWCg*# graphics transfers interleaved with other lines), "
@@ -37,7 +52,25 @@ CLAIM = dict(
          "effect); dec_sound_guard_exact: the guard is the weakest possible; dec_sound_blank_image_counterexample: the unguarded "
          "statement is false of model and Spec on HWCg#1=0/0,0x0: (a Spec limitation, not a decoder defect: the decoder "
          "reassembles that image exactly); dec_sound_nb: unguarded form with the reader's output minus such deliveries; "
-         "text_total: decText agrees with the reference reader on every well-formed text value.",
+         "text_total: decText agrees with the reference reader on every well-formed text value; text_prefixes (all 22 prefixes "
+         "of a full text value); simple_vs_advanced_gfx_model/_spec (a header-less part 0 opens the transfer that /2,64x32 "
+         "opens, for every keyword, id list, payload, previous state). For JSON lines ({...}, [...]) reader and decoder "
+         "consult the same encoding/json oracle, so dec_sound says for them only that the parsed state / messages are passed "
+         "on unchanged, in place and in order. Round trip (C01 and C02 composed): enc_in_domain and roundtrip_in — for messages of "
+         "InDomainIn with the decidable roundtripGuard (FLAG register ids are numerals < 2^32, a calibration payload is stable "
+         "under the C07 normal form: true of valid UTF-8) the encoder's lines lie in inDomainLines, deliver no all-default "
+         "image, and decode to messages with exactly the effects of the original messages (compared as effects: modulo message "
+         "grouping, 2-bit colour levels, normText, canonical FLAG ids/values, C07 payload form, enum arguments mod 2^32); without "
+         "the guard both statements are false (enc_in_domain_flag_counterexample, roundtrip_in_unguarded_counterexample, "
+         "roundtrip_in_calibration_counterexample). Outside the domain the model's behaviour is pinned, not judged: "
+         "foreign_part_divergence / foreign_format_divergence (interleaved transfers A0 B0 A1 B1: the decoder ignores foreign parts "
+         "and delivers B, the reference reader abandons and delivers nothing; the protocol is silent), "
+         "flag_letter_id_out_of_domain_behaviour (Flag#A=1 writes flag 0), uint32_/int32_arg_wrap_out_of_domain_behaviour (all "
+         "values up to MaxInt64: mod 2^32 / signed wrap), numeric_overflow_out_of_domain_behaviour (Atoi clamp), "
+         "noncanonical_base64_out_of_domain_behaviour. Regex tie: regex_sources_tie (six literal sources), regex_keywords_tie and "
+         "regex_gfx_optional_groups (alternation lists inside the regenerated sources = the matchers' keyword tables, same order); "
+         "everything else about the six patterns rests on the bounded-exhaustive din.match correspondence with the library's "
+         "real regexp objects.",
     note=TB + "Lines with a grammar keyword and malformed arguments are outside the domain (C06 covers them: no panic, no "
          "nil message). Enum-valued command arguments are read modulo 2^32 (protobuf enums are int32).",
     technique="Lean 4 proof (shape lemmas for the byte matchers, numeral/Atoi lemmas, bit-field arithmetic) + "
